@@ -182,7 +182,7 @@ func scPKI(r *Run) {
 		return b
 	}
 	nameTypes := []certs.IDType{certs.TypeRaw, certs.TypeDNSName, certs.TypeIPv4Address, certs.TypeIPv6Address}
-	labels := []string{"alpha", "beta", "alpha.example", "10.0.0.1", ""}
+	labels := []string{"alpha", "beta", "alpha.example", "10.0.0.1", "", "Alpha", "ALPHA.EXAMPLE", "ssh.example", "\u017fsh.example", "bank.example", "ban\u212a.example", "alpha.example."}
 	// names are built the way callers build them: through the public constructors where one exists
 	mkName := func(t certs.IDType, label string) certs.Name {
 		switch t {
@@ -567,8 +567,14 @@ func scPKI(r *Run) {
 			}
 			var name certs.Name
 			given := false // (the harness's own record of whether a name is requested, not Name.IsZero)
-			nameKind := r.Intn("q", 4)
+			nameKind := r.Intn("q", 5)
 			switch nameKind {
+			case 4: // a look-alike of a label the leaf carries: other case, a letter that folds to it, a trailing dot or blank
+				if leaf.parsed && len(leaf.names) > 0 {
+					n0 := leaf.names[r.Intn("q", len(leaf.names))]
+					name, given = mkName(certs.IDType(n0[0][0]), lookAlike(r, n0[1])), true
+					r.CountFault("look-alike-name-requested", 1)
+				}
 			case 0: // no name requested
 			case 1: // one the leaf carries
 				if leaf.parsed && len(leaf.names) > 0 {
@@ -748,4 +754,45 @@ func recNames(l []*certRec) string {
 		s += recName(c)
 	}
 	return s + "]"
+}
+
+// lookAlike returns a label that a careless comparison takes for s: same letters in another case, a letter
+// that Unicode case folding maps onto an ASCII one (long s, Kelvin sign), a trailing dot or blank.  (It may
+// return s itself when s offers nothing to vary; the model compares bytes.)
+func lookAlike(r *Run, s string) string {
+	b := []rune(s)
+	switch r.Intn("lookalike", 5) {
+	case 0:
+		for i, c := range b {
+			if c >= 'a' && c <= 'z' {
+				b[i] = c - 32
+				if r.Intn("lookalike", 2) == 0 {
+					break
+				}
+			}
+		}
+		return string(b)
+	case 1:
+		for i, c := range b {
+			if c >= 'A' && c <= 'Z' {
+				b[i] = c + 32
+			}
+		}
+		return string(b)
+	case 2:
+		for i, c := range b {
+			switch c {
+			case 's', 'S':
+				b[i] = 0x17f
+				return string(b)
+			case 'k', 'K':
+				b[i] = 0x212a
+				return string(b)
+			}
+		}
+		return s
+	case 3:
+		return s + "."
+	}
+	return s + " "
 }
